@@ -8,7 +8,7 @@ through the *writers* of `Store/ApiW.lean` — the state kept after a refused ca
 writer has reached, so a dump taken after the refusal shows whatever the call left behind.
 
 Additional ops:
-  ["create", path, what, name, type, extra, fault]      fault = null | [stage, errclass]
+  ["create", path, what, name, type, extra, fault]      fault = null | [stage, errclass, variant]
   ["create_mtag", path, name, type, pos, ext]           pos/ext = null | {"ref": path} | {"data": fault}
   ["append_dim", path, kind, withData, fault]
   ["dump12"]                                            dump incl. dimension descriptors
@@ -24,7 +24,7 @@ def parseErr (s : String) : Option Nix.Err :=
 def parseFault (j : Json) : Except String (Option Fault) :=
   if isNull j then .ok none
   else match (jArr j).toList with
-    | [.str st, .str er] =>
+    | .str st :: .str er :: _ =>       -- a third element names the concrete argument (harness only)
       let stage? : Option Stage := match st with
         | "pre" => some .pre | "entity" => some .entity | "data" => some .data | _ => none
       match stage?, parseErr er with
@@ -113,6 +113,7 @@ def step (g : Graph) (j : Json) : Graph × Json :=
     | some p, .ok f => reached (appendDimW g p kd (jBool wd) f)
     | _, _ => (g, bad "args")
   | [.str "dump12"] => (g, ok (dump12 g))
+  | [.str "dump"] => (g, ok (dump12 g))      -- the shared generator's dump: dimension descriptors visible here
   | _ => Driver.Store.step g j
 
 def main : IO Unit := loop ({} : Graph) step
